@@ -4,6 +4,9 @@ EXTRACT = []
 FAMILIES = [
     {"name": "relayxlate", "family": "relayxlate", "group": "relayer", "driver": "drv_relayxlate",
      "n_quick": 40000, "n_thorough": 400000, "seeds_thorough": 3},
+    # the batch path: real handleEthereumEvent -> RelayToCosmos -> tx.BroadcastTx, claims decoded from the signed tx
+    {"name": "relaybatch", "family": "relaybatch", "group": "relayer", "driver": "drv_relayxlate",
+     "n_quick": 6000, "n_thorough": 60000, "seeds_thorough": 3},
 ]
 RULE = ("relayxlate: per 8 cases — 2 direct EthereumEventToEthBridgeClaim calls and 1 through real ABI packing + logToEvent "
         "(20-byte addresses incl. null, amounts 0..2^256+ and negative, chain ids / nonces around 2^63 and 2^64 and negative, "
@@ -12,7 +15,11 @@ RULE = ("relayxlate: per 8 cases — 2 direct EthereumEventToEthBridgeClaim call
         "BurnLockEventToCosmosMsg calls on attribute lists with missing / duplicated / reordered / foreign attributes and corrupt "
         "values (base-0 integer texts, separators, signs, hex receivers with and without prefix); prophecy ids of neighbouring "
         "(nonce, sender) pairs or AttributesToEthereumBridgeClaim; 1 composition case: the real msgServer.Lock/Burn on a real "
-        "keeper set emits its event, the real parser translates it.  non-trivial = distinct input that was translated (not refused)")
+        "keeper set emits its event, the real parser translates it.  non-trivial = distinct input that was translated (not refused).  "
+        "relaybatch: batches of 0-6 events (mixed lock/burn/other, one chain id and increasing nonces mostly, repeated nonces, "
+        "malformed events at first/middle/last position, ASCII symbols) through the real handleEthereumEvent -> RelayToCosmos -> "
+        "tx.BroadcastTx with an in-memory keyring and a recording stub node; claims decoded from the signed tx; non-trivial = "
+        "distinct batch with at least one submitted claim")
 TRUSTED_BASE = [
     "Lean 4.33.0 kernel; axioms propext, Classical.choice, Quot.sound (audited per theorem on every run)",
     "hand-written Lean model of cmd/ebrelayer/txs/parser.go, the prophecy id of x/ethbridge/types/claim.go and the lock/burn "
@@ -35,14 +42,16 @@ UNPROVED = [
     "ABI decoding in logToEvent is not modelled: the log2claim stream ties the composition ABI-pack -> logToEvent -> claim to the same model function by testing only",
     "composition with the chain is proved against the model of the emitters (emitAttrs), which is tied to msgServer.Lock/Burn by the L1 "
     "correspondence (real keepers, real event manager), not by a full ABCI (L2) run",
+    "batch path: symbols of the relaybatch family are ASCII (the Unicode ToLower path is exercised by relayxlate only); signing, "
+    "tx encoding and BroadcastTx are cosmos-sdk code (the claims are read back from the signed bytes)",
     "AttributesToEthereumBridgeClaim (replay helper; last-wins, no completeness check) is modelled and differential-tested, no theorem",
 ]
 MANIFEST = {
     "text": "Lean 4 theorems over a model of the relayer's two translation functions for every event field value and every attribute "
             "list: field fidelity in both directions, rejection of malformed events and of incomplete attribute lists, no-wrap narrowing "
             "below 2^63, prophecy-id injectivity per chain, burn symbol = attribute minus exactly the leading 'c' (iff), decimal "
-            "round trip through SetString, composition with the chain's own lock/burn emitters.  Tied to the Go code by differential "
-            "execution of the real functions (incl. real ABI packing + logToEvent and the real msgServer emitting real events) and by "
+            "round trip through SetString, composition with the chain's own lock/burn emitters; and for the batch the relayer actually submits (handleEthereumEvent -> RelayToCosmos): one claim per submittable event, in order, each faithful to its own event, distinct ids.  Tied to the Go code by differential "
+            "execution of the real functions (incl. real ABI packing + logToEvent, the real msgServer emitting real events, and the real batch path with claims decoded from the signed transaction) and by "
             "evaluating the theorems' own decidable predicates on the implementation's outputs.",
     "note": "Trusted: Lean kernel (+propext, Classical.choice, Quot.sound); hand-written model tied only by the correspondence run; "
             "bech32, EIP-55 casing, ABI codec, Unicode lower-casing enter as environment values / are normalised by the harness. "
